@@ -136,6 +136,13 @@ func c20ReportWhenQuiet(c *Ctx) {
 						idle = true
 						where = sel
 					}
+					// the same with an explicit timer made anew in every iteration: t := time.NewTimer(d) … case <-t.C
+					if tm := timerOfC(st.Chan); tm != nil {
+						if ti, ok := tm.(ssa.Instruction); ok && InLoop(ti.Block()) && sameLoop(ti.Block(), sel.Block()) {
+							idle = true
+							where = sel
+						}
+					}
 				}
 			}
 		}
